@@ -1,4 +1,5 @@
 import ZmqVerif.Model.Sockets
+import ZmqVerif.Lemmas.WorldResub
 import ZmqVerif.Lemmas.WorldSubOp
 /-!
 # C13 — a SUB socket's subscriptions reach every peer, including late joiners
@@ -173,5 +174,58 @@ theorem C13_world_subop_start (w : World) (sid : Nat) (s : Socket) (k : Ident) (
     (hnd : (s.peers.map (·.1)).Nodup) :
     SubInv (setSock w sid { s with subs := subs' }) sid k wr.pipe (outOf w.pipes wr) enc (s.peers.map (·.1)) none false :=
   SubInv.start w sid s k wr enc subs' hk hdist hnd
+
+
+/-! ### socket level: a late joiner is told the whole snapshot, then registered -/
+
+open Zmq.W in
+/-- **"Peers that connect or are accepted afterwards receive all subscriptions active at that time."**  The last stage of
+a SUB socket's handshake future announces the snapshot `todo` of the subscription set to the new connection — a full
+`send` per topic, resumable under any back-pressure — and only then registers the peer.  For EVERY poll of that stage:
+`Pending` keeps the books (what is owed beyond the new base is what was owed minus what has been handed over: nothing
+skipped, nothing repeated); completion is `Ok(ident)` and either the socket is untouched (the connection failed during
+the announcement or the socket is gone: the joiner is dropped UNREGISTERED — it can never be a peer that was told only
+part of the set) or the joiner is registered under `ident` with an empty write buffer and its connection carries `base`
+followed by one announcement per topic of the snapshot, in order, each whole, each once.  (What this does NOT give is
+atomicity against a subscribe/unsubscribe that runs between snapshot and registration: finding D10, `C13_race_witness`.) -/
+theorem C13_world_late_joiner (fuel : Nat) (w : World) (sid pid : Nat) (ident : Ident) (todo : List Bytes)
+    (cur : Option SendSt) (rd : Rd) (wr : Wr) (base enc : Bytes) (hat : ResubAt w.pipes wr base enc cur)
+    (w' : World) (f' : FutSt) (o : POut)
+    (h : attachPoll fuel w sid pid (.resub ident todo cur) rd wr = (w', f', o)) :
+    (o = .pending → ∃ todo' cur' wr' base' enc', f' = .attach sid pid (.resub ident todo' cur') rd wr' ∧
+        wr'.pipe = wr.pipe ∧ ResubAt w'.pipes wr' base' enc' cur' ∧
+        base' ++ owed enc' cur' todo' = base ++ owed enc cur todo) ∧
+    (∀ v, o = .ready v → (v = .okId ident ∨ ∃ e, v = .err e) ∧
+        (getSock w' sid = getSock w sid ∨
+         ∃ s' wr', getSock w' sid = some s' ∧ ilookup s'.peers ident = some wr' ∧ wr'.pipe = wr.pipe ∧ wr'.buf = [] ∧
+           (wOf w'.pipes wr.pipe).wire = base ++ owed enc cur todo)) :=
+  attachPoll_resub_spec fuel w sid pid ident todo cur rd wr base enc hat w' f' o h
+
+open Zmq.W in
+/-- non-vacuity: at the start of the stage (nothing in progress, the READY flushed) the premise is just "the outgoing
+stream is `base`", and what is owed is one announcement per topic -/
+example (ps : Pipes) (wr : Wr) (hb : wr.buf = []) :
+    ResubAt ps wr (outOf ps wr) [] none ∧ owed [] none [[97], [98]] = encodeMsg (subsMsg true [97]) ++ encodeMsg (subsMsg true [98]) := by
+  refine ⟨⟨hb, rfl⟩, ?_⟩
+  simp [owed]
+
+open Zmq.W in
+/-- **A peer that connects AFTERWARDS is told all subscriptions active at that time — end to end.**  A SUB socket (alive)
+starts the handshake on a connection that takes every write at once, and the connection's byte stream begins with an
+acceptable greeting and a READY admitted under `ident`.  Then ONE poll of the handshake future completes with
+`Ok(ident)`, the peer is registered with an empty write buffer, and what its connection carries is exactly: the
+socket's greeting, its READY, and ONE announcement per subscription in the socket's set at that moment, in order. -/
+theorem C13_world_joiner_told_all (n : Nat) (w : World) (sid pid : Nat) (rd : Rd) (wr : Wr) (s : Socket) (encG : Bytes)
+    (hs : getSock w sid = some s) (hsub : s.typ = .sub) (halive : s.dead = false)
+    (hb : wr.buf = []) (hfree : Free w.pipes wr.pipe)
+    (g : Greeting) (props : List (Bytes × Bytes)) (rest : List Item)
+    (hitems : rd.items w.pipes = .greeting g :: .command props :: rest) (hv : vOk g)
+    (ident : Ident) (fresh' : Nat) (hadm : admitPeer s.typ props w.fresh = .ok (ident, fresh')) :
+    ∃ w' s' wr', attachPoll (n + 2 * s.subs.length + 5) w sid pid (.sendGreeting (.feeding encG)) rd wr
+        = (w', .done, .ready (.okId ident)) ∧
+      getSock w' sid = some s' ∧ ilookup s'.peers ident = some wr' ∧ wr'.pipe = wr.pipe ∧ wr'.buf = [] ∧
+      (wOf w'.pipes wr.pipe).wire =
+        (wOf w.pipes wr.pipe).wire ++ encG ++ encodeReady s.typ s.ident false ++ annc s.subs :=
+  attachPoll_completes_sub n w sid pid rd wr s encG hs hsub halive hb hfree g props rest hitems hv ident fresh' hadm
 
 end Zmq.C13
